@@ -36,8 +36,13 @@ def sch(name):
     return _SCH[name]
 
 
+_BIN = []
+
+
 def probe_binary():
-    return build.probe(*PROBE[:2], runtime=PROBE[2], schemas=PROBE[3])
+    if not _BIN:                   # build (or find in the object cache) once per check run
+        _BIN.append(build.probe(*PROBE[:2], runtime=PROBE[2], schemas=PROBE[3]))
+    return _BIN[0]
 
 
 # ---------------------------------------------------------------------------------------------------
